@@ -200,6 +200,14 @@ package server
 //@   claims at-call
 //@   at-call table.UpdatePathAggregator2ByteAs( requires called(UpdatePathAttrs2ByteAs)
 
+// from C17: "a VPN route is advertised iff the peer currently has an accepted membership for one of the route's
+// targets ..., and every membership ... change triggers exactly the advertisements and withdrawals needed": when a
+// membership is withdrawn, only routes the peer is no longer interested in (after the change) are withdrawn from it
+//@ props C17
+//@ func (*BgpServer).processRTCMembership$2
+//@   claims at-call
+//@   at-call ^peer.updateRoutes(filtered...) requires path.IsWithdraw && !called(processOutgoingPaths) ==> (forall k int :: 0 <= k && k < len(filtered) ==> !peer.interestedIn(filtered[k]))
+
 // =============================================================================================
 // C12 - graceful restart: the per-call parts (DESIGN.md 4 C12; every "exactly when <timer/event order>" clause
 // of the statement is a property of histories and not decided here)
